@@ -327,6 +327,9 @@ def main():
 
     wall = time.time() - t0
     known_ids = set(k['obligation'] for _, k in known_hits)
+    for f, k in known_hits:      # a known side-condition finding takes the function's `body` obligation with it
+        if f.get('item') and not re.search(r'::(ensures|loop\d+|closure\d+)\.', k['obligation']):
+            known_ids.add(f['item'] + '::body')
     all_obls = [o for o in all_obls if o not in known_ids]      # known findings are reported apart
     n_obl = len(all_obls)
     n_dis = len([o for o in all_obls if o not in failed_obls])
